@@ -123,7 +123,7 @@ def _max_matching_size(adj, n_right):
 # --------------------------------------------------------------------------
 
 def resample_multipitch(times, frequencies, target_times):
-    """"Resamples multipitch time series to a new timescale using nearest
+    """Documented: "Resamples multipitch time series to a new timescale using nearest
     neighbor interpolation.  Values in target_times outside the range of times
     return no pitch estimate."  Empty targets -> []; empty source -> an empty
     frame per target."""
@@ -218,7 +218,7 @@ def _frame_true_positives(ref, est, window, chroma, exact_inputs, same=None):
 
 
 def compute_num_true_positives(ref_freqs, est_freqs, window=0.5, chroma=False):
-    """"Compute the number of true positives in an estimate given a reference.
+    """Documented: "Compute the number of true positives in an estimate given a reference.
     A frequency is correct if it is within a quartertone of the correct
     frequency."  Inputs are MIDI numbers; with chroma=True "computes distances
     modulo n".  Returns an array as long as ref_freqs (frames without an
@@ -304,7 +304,7 @@ def _validate(ref_time, ref_freqs, est_time, est_freqs):
 
 
 def _midi(f):
-    """"mapping them to log-2 semitone space": 69 + 12 log2(f / 440)."""
+    """Documented: "mapping them to log-2 semitone space": 69 + 12 log2(f / 440)."""
     return 69.0 + 12.0 * math.log2(f / 440.0)
 
 
